@@ -338,6 +338,30 @@ OPS = {
 }
 
 
+def STORE_REPLAY(attr_name, cls, allowed):
+    return lambda w: {"code": f"""
+import numpy as np, verif_probes as VP
+det = VP.detector(rows=2, cols=3, kind='MKID' if {attr_name!r} == 'phase' else 'CCD') if {attr_name!r} != 'phase' else None
+if det is None:
+    from pyxel.detectors import MKID, MKIDGeometry, Characteristics, Environment
+    det = MKID(geometry=MKIDGeometry(row=2, col=3), environment=Environment(), characteristics=Characteristics())
+c = getattr(det, {attr_name!r})
+VIOLATED, DETAIL = False, 'an accepted assignment stores the given array: its type and its values'
+allowed = {list(allowed)!r}
+for old_dt in allowed:
+    for new_dt in allowed:
+        c._array = None
+        c.array = np.ones((2, 3), dtype=old_dt)
+        hi = np.iinfo(new_dt).max if np.dtype(new_dt).kind in 'ui' else 1.5
+        new = np.full((2, 3), hi, dtype=new_dt)
+        c.array = new
+        got = c.array
+        if got.dtype != np.dtype(new_dt) or not np.array_equal(got, new):
+            VIOLATED, DETAIL = True, f'{cls} holding {{old_dt}}: assigning a {{new_dt}} array of {{hi}} stores {{got.dtype}} {{np.asarray(got).ravel()[:2].tolist()}}'; break
+    if VIOLATED: break
+""", "expect": "the container holds the array it was given (type and values), whatever it held before"}
+
+
 def _arraybase_units():
     for (path, cls, allowed, attr_name) in CONTAINERS:
         for opname, (qual, op_code, mkargs) in OPS.items():
@@ -355,7 +379,9 @@ def _arraybase_units():
                             continue      # update() takes array-likes; np.asarray(DataArray) is not modelled
                         def setup(ex, pre=pre, kind=kind):
                             ref = mk_container(ex, u, path, cls, allowed, pre)
-                            return mkargs(ex, ref, mk_value(ex, kind))
+                            ex.given = mk_value(ex, kind)
+                            ex.given_elem = ex.st.cell(ex.given).elem if isinstance(ex.given, VRef) and isinstance(ex.st.cell(ex.given), HArr) else None
+                            return mkargs(ex, ref, ex.given)
                         for p in u.paths(fi, setup, cfg, label=f"{cls}.{opname}[{pre},{kind}]"):
                             ref = p.ex.self_ref
                             w = witness(kind, pre)
@@ -366,6 +392,17 @@ def _arraybase_units():
                                 u.oblige(p, f"atomic[{cls}.{opname}:{pre},{kind}]", zb(unchanged(p, ref)), w, rp, info=info)
                             else:
                                 n_ok += 1
+                                if opname == "array.setter" and p.ex.given_elem is not None:
+                                    # an ACCEPTED assignment stores what was given: the type of the given array (a wider image type is not
+                                    # squeezed into the type of the content held before) and its values
+                                    now = p.st.cell(ref).fields.get("_array")
+                                    okr = isinstance(now, VRef) and isinstance(p.st.cell(now), HArr)
+                                    goal = z3.BoolVal(False)
+                                    if okr:
+                                        nc, gv = p.st.cell(now), p.st.cell(p.ex.given)
+                                        g = p.ex.generic
+                                        goal = z3.And(zb(arrays.dtype_eq(p.ex, nc.dtype, gv.dtype)), to_real(nc.elem(g)) == to_real(p.ex.given_elem(g)))
+                                    u.oblige(p, f"stores_the_given_array[{cls}.{opname}:{pre},{kind}]", goal, w, STORE_REPLAY(attr_name, cls, allowed), info=info)
                 u.cover(f"cover[{cls}.{opname}]", [1] * n_ok, lambda _: True)
             unit("C13", f"{cls}.{opname}")(un)
 
